@@ -195,7 +195,7 @@ func init() {
 			if tier == "thorough" {
 				return 20 * time.Minute
 			}
-			return 70 * time.Second
+			return 120 * time.Second
 		},
 	})
 }
